@@ -760,7 +760,7 @@ class Contract:
                  label=None,
                  may_raise=(), returns=None, modular=False, note=None,
                  cross_check=True, frame=None, ghost=None, tier='quick',
-                 options=None):
+                 options=None, native_only=False):
         self.target = target
         self.prop = prop
         self.args = args              # dict or callable(**shape) -> dict
@@ -780,6 +780,9 @@ class Contract:
         self.ghost = ghost or {}
         self.tier = tier
         self.options = options or {}
+        # declared bounded: the clauses are only run natively on samples
+        # (sizes beyond the symbolic budget); never counted as proved
+        self.native_only = native_only
 
     @property
     def name(self):
@@ -790,7 +793,7 @@ class Lemma:
     kind = 'lemma'
 
     def __init__(self, name, prop, forall, given=(), prove=(), shapes=None,
-                 shapes_thorough=None, note=None):
+                 shapes_thorough=None, note=None, native_only=False):
         self.name = name
         self.prop = prop
         self.forall = forall
@@ -800,6 +803,7 @@ class Lemma:
         self.shapes = shapes or {}
         self.shapes_thorough = shapes_thorough
         self.note = note
+        self.native_only = native_only
 
 
 def _lab(e, i):
